@@ -360,7 +360,6 @@ func Exists(vars []*Term, body *Term) *Term {
 	return &Term{Op: "exists", Bind: vars, Args: []*Term{body}, Sort: SBool}
 }
 
-
 func renderTerm(t *Term) string {
 	var sb strings.Builder
 	writeTerm(&sb, t)
